@@ -1,1 +1,146 @@
-fn main() {}
+use atsv::driver::{self, Known, Stats};
+use atsv::exec::Prop;
+use atsv::gen;
+use atsv::replay;
+use serde_json::json;
+use std::time::{Duration, Instant};
+
+fn arg_val(args: &[String], name: &str) -> Option<String> {
+    args.iter().position(|a| a == name).and_then(|i| args.get(i + 1).cloned())
+}
+
+fn main() {
+    atsv::chain::silence_panics();
+    let args: Vec<String> = std::env::args().collect();
+    if args.len() < 3 {
+        eprintln!("usage: atsv check <ID> [--tier quick|thorough] [--cases N] | atsv replay <ID> <file>... [-v]");
+        std::process::exit(2);
+    }
+    let prop = match Prop::parse(&args[2]) {
+        Some(p) => p,
+        None => {
+            eprintln!("unknown property {}", args[2]);
+            std::process::exit(2);
+        }
+    };
+    let known = Known::load();
+    match args[1].as_str() {
+        "replay" => {
+            let verbose = args.iter().any(|a| a == "-v");
+            let mut bad = 0;
+            for path in args[3..].iter().filter(|a| *a != "-v") {
+                let case = match replay::load(path) {
+                    Ok(c) => c,
+                    Err(e) => {
+                        eprintln!("{}", e);
+                        std::process::exit(2);
+                    }
+                };
+                let r = match replay::run_case(prop, &case, 1000) {
+                    Ok(r) => r,
+                    Err(e) => {
+                        eprintln!("{}", e);
+                        std::process::exit(2);
+                    }
+                };
+                if verbose {
+                    for (i, s) in r.trace.iter().enumerate() {
+                        println!("step {}: {}", i, s.to_json());
+                    }
+                    println!("counters: {:?}", r.judge.counters);
+                    println!("labels: {:?} nontrivial={}", r.judge.labels, r.judge.nontrivial);
+                }
+                let mut unknown = 0;
+                for v in &r.judge.violations {
+                    if known.is_known(v) {
+                        println!("KNOWN-FINDING: property={} {}", prop.id(), v.signature);
+                    } else {
+                        println!("  [{}] step {}: {}", v.signature, v.step, v.detail);
+                        unknown += 1;
+                    }
+                }
+                if unknown > 0 {
+                    println!("VIOLATION property={} replay={}", prop.id(), path);
+                    bad += 1;
+                }
+            }
+            std::process::exit(if bad > 0 { 1 } else { 0 });
+        }
+        "check" => {
+            let tier = arg_val(&args, "--tier").or_else(|| std::env::var("VERIF_TIER").ok()).unwrap_or_else(|| "quick".into());
+            let thorough = tier == "thorough";
+            let seed: u64 = std::env::var("VERIF_SEED").ok().and_then(|s| s.parse::<i128>().ok()).map(|x| x as u64).unwrap_or(20261001);
+            let budget: f64 = std::env::var("VERIF_BUDGET").ok().and_then(|s| s.parse().ok()).unwrap_or(1.0);
+            let start = Instant::now();
+            for f in known.findings.iter().filter(|f| f.0 == prop.id()) {
+                println!("KNOWN-FINDING: property={} {} -- {}", prop.id(), f.1, f.2);
+            }
+            let p = gen::profile(prop, thorough);
+            let mut stats = Stats::default();
+            let mut failure = if std::env::var("ATSV_NO_REPLAYS").is_ok() { None } else { driver::run_replays(prop, &known, &mut stats) };
+            let replays = stats.evaluations;
+            let mut grid = 0;
+            if failure.is_none() && prop == Prop::C13 {
+                failure = driver::run_c13_grid(&p, &known, &mut stats);
+                grid = stats.evaluations - replays;
+            }
+            let default_cases: u64 = match (prop, thorough) {
+                (Prop::C13, false) => 60_000,
+                (Prop::C13, true) => 3_000_000,
+                (Prop::C03, false) => 4_000,
+                (Prop::C16, false) => 16_000,
+                (Prop::C06, false) | (Prop::C12, false) => 8_000,
+                (Prop::C05, false) => 16_000,
+                (_, false) => 24_000,
+                (Prop::C03, true) | (Prop::C16, true) => 150_000,
+                (Prop::C06, true) | (Prop::C12, true) | (Prop::C05, true) => 400_000,
+                (_, true) => 2_000_000,
+            };
+            let cases = arg_val(&args, "--cases").and_then(|s| s.parse().ok()).unwrap_or(((default_cases as f64) * budget) as u64);
+            let workers = std::thread::available_parallelism().map(|n| n.get()).unwrap_or(4).min(16);
+            let cap = if thorough { Duration::from_secs_f64(420.0 * budget) } else { Duration::from_secs(600) };
+            let mut timed_out = false;
+            if failure.is_none() {
+                let res = driver::search(prop, &p, seed, cases, workers, Some(start + cap), &known);
+                stats.merge(res.stats);
+                failure = res.failure;
+                timed_out = res.timed_out;
+            }
+            let wall = start.elapsed();
+            let extra = json!({
+                "committed_replays_run": replays,
+                "grid_points": grid,
+                "generated_cases_requested": cases,
+                "workers": workers,
+                "time_cap_reached_so_fewer_cases_ran": timed_out,
+                "profile": format!("{:?}", p),
+            });
+            driver::write_evidence(prop, &tier, seed, &stats, wall, failure.as_ref().map(|f| f.violations.len()).unwrap_or(0), extra, &known);
+            println!(
+                "{} {}: {} cases ({} non-trivial, {} distinct), {} requests, {} probes, {:.1}s",
+                prop.id(),
+                tier,
+                stats.evaluations,
+                stats.nontrivial,
+                stats.distinct.len(),
+                stats.counters.requests,
+                stats.counters.probes,
+                wall.as_secs_f64()
+            );
+            match failure {
+                None => std::process::exit(0),
+                Some(f) => {
+                    for v in &f.violations {
+                        println!("  [{}] step {}: {}", v.signature, v.step, v.detail);
+                    }
+                    println!("VIOLATION property={} replay={}", prop.id(), f.replay_path);
+                    std::process::exit(1);
+                }
+            }
+        }
+        other => {
+            eprintln!("unknown command {}", other);
+            std::process::exit(2);
+        }
+    }
+}
